@@ -350,3 +350,30 @@ Proof.
   apply andb_prop in H as [H1 H2]. split; [|now apply IH].
   destruct o; cbn [op_wf]; try exact I; try lia.
 Qed.
+
+(* the element-generic wire suite (Suites/SStackGen.v; instance: PushStack<Item>) *)
+From PushModel Require Import Suites.SStackGen.
+Lemma ops_wf_bg_sound : forall (A : Type) (eqA streq : A -> A -> bool) (ops : list (op A)) (t : list A),
+  ops_wf_bg eqA streq t ops = true -> ops_wf eqA streq t ops.
+Proof.
+  intros A eqA streq.
+  induction ops as [|o r IH]; intros t H; cbn [ops_wf_bg ops_wf] in *; [exact I|].
+  apply andb_prop in H as [H1 H2]. split; [|now apply IH].
+  destruct o; cbn [op_wf]; try exact I; try lia.
+Qed.
+
+(* inside the quantifier the generic suite prints exactly the specification's run:
+   the checker's verdict 1 on an observed result means "equal to the model's result" *)
+Lemma suite_g_result_is_spec :
+  forall (A : Type) (sx_el : A -> sx) (sx_listing : list A -> sx) (eqA streq : A -> A -> bool)
+         (p : profile) (init : list A) (ops : list (op A)),
+    ops_wf_bg eqA streq (rev init) ops = true -> sizes_ok eqA streq (rev init) ops ->
+    run_g sx_el sx_listing eqA streq p init ops =
+    SL [SZ 0; sx_run_g sx_el sx_listing (spec_run eqA streq (rev init) ops)].
+Proof.
+  intros A sx_el sx_listing eqA streq p init ops W S.
+  apply ops_wf_bg_sound in W.
+  destruct (stack_refines_seq_lemma eqA streq p ops init W S) as [v' [E R]].
+  unfold abs in R, E. unfold run_g, s_from_vec. rewrite E. cbn [sx_res fst snd]. rewrite R.
+  destruct (spec_run eqA streq (rev init) ops); reflexivity.
+Qed.
